@@ -813,14 +813,25 @@ LABEL:
 		case tokenEndStatement:
 			unexpected = true
 		case tokenEndStatements:
-			_, unexpected = p.parent().(*ast.Statements)
+			// Skip the labels that still wait for their statement.
+			i := len(p.ancestors) - 1
+			for i > 0 {
+				if _, ok := p.ancestors[i].(*ast.Label); !ok {
+					break
+				}
+				i--
+			}
+			_, unexpected = p.ancestors[i].(*ast.Statements)
 		default:
 			panic(end)
 		}
 		if unexpected {
 			panic(syntaxError(tok.pos, "unexpected }, expecting statement"))
 		}
-		if _, ok := p.parent().(*ast.Label); ok {
+		for {
+			if _, ok := p.parent().(*ast.Label); !ok {
+				break
+			}
 			p.removeLastAncestor()
 		}
 		bracesEnd := tok.pos.End
